@@ -33,7 +33,7 @@ def prop(pid, level, rule, stages_quick, stages_thorough, assumptions=None, exha
 prop(
     "C01",
     "exploration",
-    "cases = (voice: bundled | PDF-perturbed copy | generated voice over the full {2,3 streams}x{stage 0..3}x{1..7 states}x{4 window sets} grid | random generated) x (utterance: corpus window / shuffle / field-recombination / breath group; structurally random labels for the no-panic part) x (random point or corner of the condition envelope, incl. alignment with random time annotations, whose frame counts are checked against the exact-integer alignment law on the annotation itself); "
+    "cases = (voice: bundled | PDF-perturbed copy | generated voice over the full {2,3 streams}x{stage 0..3}x{1..7 states}x{4 window sets} grid | random generated) x (utterance: corpus window / shuffle / field-recombination / breath group; structurally random labels for the no-panic part) x (random point or corner of the condition envelope, incl. alignment with random time annotations, whose frame counts are checked against the exact-integer alignment law on the annotation itself; with alignment on and no time on any label the model's own durations are expected whatever the speed); "
     "non-trivial = at least one voiced frame and more frames than states; distinct by hash(voice description, condition, label text)",
     [st("checked", death_is_violation=True)],
     [st("checked", death_is_violation=True), st("release", death_is_violation=True), st("asan", name="asan", args=["--sub", "synthetic", "--scale", "0.03"], env=ASAN_ENV, canary="asan", death_is_violation=True)],
@@ -70,7 +70,7 @@ prop(
 prop(
     "C02",
     "exploration",
-    "histories over {step(fp), step(2fp), step(3fp-1), frames-produced query, finish}: EVERY history up to length 5 (quick) / 7 (thorough) on generators of 0..5 frames (tiny generated voice, one frame per label) is enumerated; random long histories (buffer sizes in [fp,3fp], finish at a random cut incl. 0, F and past the end) on the bundled and generated voices under random conditions; each is checked against a sequential cursor model over the one-shot waveform; non-trivial = a step followed by a finish at 0<k<F, or >= 2 distinct buffer sizes; distinct by (voice, F, history)",
+    "histories over {step(fp), step(2fp), step(3fp-1), frames-produced query, finish}: EVERY history up to length 5 (quick) / 7 (thorough) on generators of 0..5 frames (tiny generated voice, one frame per label) is enumerated; random long histories (buffer sizes in [fp,3fp], finish at a random cut incl. 0, F and past the end) on the bundled and generated voices under random conditions; with phoneme alignment on, lines (fully stamped with one label shorter than its states, partly stamped, or without times at a speed other than 1) handed to synthesize() and generator() alike; each is checked against a sequential cursor model over the one-shot waveform; non-trivial = a step followed by a finish at 0<k<F, or >= 2 distinct buffer sizes; distinct by (voice, F, history)",
     [st("checked", death_is_violation=True)],
     [st("checked", death_is_violation=True), st("release", death_is_violation=True), st("asan", name="asan", args=["--sub", "random", "--scale", "0.05"], env=ASAN_ENV, canary="asan", death_is_violation=True)],
     ["buffer contents beyond the first fperiod samples are not constrained (the statement does not say)"],
@@ -119,7 +119,7 @@ prop(
 prop(
     "C10",
     "exploration",
-    "voice sets of 1..4: bundled + PDF-perturbed copies, identical copies, generated voices with equal metadata but different trees; dyadic weight vectors (k/64, exact sum 1) on the simplex, vertices, and with negative / over-unity components, set independently for duration, each stream and each GV; every duration / stream / GV Gaussian from the public Models API compared with the weighted average of the per-voice Gaussians within 8 eps * sum|terms|; vertex weights: parameters and waveform bit-equal to the first voice; interior weights end to end: the engine's hooked trajectories equal the public building blocks run on the weighted model (<= 1e-9); each generated voice of a set lists its trees in its own order; non-trivial = >= 2 voices whose selected Gaussians differ and a non-vertex weight",
+    "voice sets of 1..4: bundled + PDF-perturbed copies, identical copies, generated voices with equal metadata but different trees; dyadic weight vectors (k/64, exact sum 1) on the simplex, vertices, and with negative / over-unity components, set independently for duration, each stream and each GV; every duration / stream / GV Gaussian from the public Models API compared with the weighted average of the per-voice Gaussians within 8 eps * sum|terms|; vertex weights: parameters and waveform bit-equal to the first voice; interior weights end to end: the engine's hooked trajectories equal the public building blocks run on the weighted model (<= 1e-9) and its durations those of the weighted duration model, also when every stream's parameter weights are one vertex while duration and GV weights are interior; each generated voice of a set lists its trees in its own order; non-trivial = >= 2 voices whose selected Gaussians differ and a non-vertex weight",
     [st("checked")],
     [st("checked"), st("release")],
 )
@@ -133,14 +133,14 @@ prop(
 prop(
     "C12",
     "exploration",
-    "utterances of 10..60 corpus labels (consecutive / shuffled) on the bundled voice and perturbed copies x GV weights {0.25,0.5,1,2} + one random weight, both GV streams; eligibility computed with the harness' wildcard matcher on the file's GV_OFF_CONTEXT; variance ratio in [0.8,1.2] per coefficient when >= 100 frames are eligible, strictly increasing over the weight grid; two and three voices with scaled GV means and convex, zero-containing and extrapolating GV interpolation weights; silence-only utterances: trajectory equals the gv=None solution; stream without GV bit-equal for any GV weight, also for copies of the bundled voice whose header switches USE_GV off while the GV data is still in the file; non-trivial = >= 100 eligible frames in a GV stream",
+    "utterances of 10..60 corpus labels (consecutive / shuffled) on the bundled voice and perturbed copies x GV weights {0.25,0.5,1,2} + one random weight, both GV streams; eligibility computed with the harness' wildcard matcher on the file's GV_OFF_CONTEXT; variance ratio in [0.8,1.2] per coefficient when >= 100 frames are eligible, strictly increasing over the weight grid; two and three voices with scaled GV means and convex, zero-containing and extrapolating GV interpolation weights; copies of the bundled voice with other GV-off context lists (a voiced phoneme among them, fewer, none); silence-only utterances: trajectory equals the gv=None solution; stream without GV bit-equal for any GV weight, also for copies of the bundled voice whose header switches USE_GV off while the GV data is still in the file; non-trivial = >= 100 eligible frames in a GV stream",
     [st("checked")],
     [st("checked"), st("release")],
 )
 prop(
     "C15",
     "exploration",
-    "h in [-24,24] (integers, fractions, +-0, corners) x random conditions (GV on) x utterances, on the bundled voice, perturbed copies and generated voices; hooked trajectories at h vs 0: same durations and V/UV mask, spectrum and low-pass bit-equal, log-F0 shifted by h*ln2/12 within 1e-9 at every voiced frame unless a voiced state's mean reaches the 20 Hz / 20 kHz limit (then only the isolation clauses); h = 0 bit-equal incl. the waveform; plus the state-level law through the public StreamParameter::apply_additional_half_tone (mean' = limit(mean + h ln2/12, ln 20, ln 20000), other components untouched) on bundled-voice and synthetic states near both limits; non-trivial = h != 0 with >= 1 voiced frame under the shift law",
+    "h in [-24,24] (integers, fractions, +-0, corners) x random conditions (GV on) x utterances, on the bundled voice, perturbed copies and generated voices; hooked trajectories at h vs 0: same durations and V/UV mask, spectrum and low-pass bit-equal, log-F0 shifted by h*ln2/12 within 1e-9 at every voiced frame unless a voiced state's mean reaches the 20 Hz / 20 kHz limit (then only the isolation clauses); a workload that sets the log-F0 GV weight so that the variance target lies within 1e-8..1e-3 of the contour's own variance measures the listed finding there (step-size control decided by rounding, bound 1e-4) and reports anything larger; h = 0 bit-equal incl. the waveform; plus the state-level law through the public StreamParameter::apply_additional_half_tone (mean' = limit(mean + h ln2/12, ln 20, ln 20000), other components untouched) on bundled-voice and synthetic states near both limits; non-trivial = h != 0 with >= 1 voiced frame under the shift law",
     [st("checked")],
     [st("checked"), st("release")],
     ["utterances whose voiced log-F0 trajectory is numerically constant while GV is on are not judged by the shift law (GV only rescales rounding noise there)"],
@@ -156,7 +156,7 @@ prop(
 prop(
     "C17",
     "exploration",
-    "forms: &[&str], &[String], Vec<String>, &[String; N] (N in 1..8), with blank lines, with 100 ns time stamps and float-spelled times (1e400, inf, NaN, -1) while alignment is off, also blank-line-first + stamped and alternating stamped/plain lines, all compared bit-for-bit with the parsed-label form; time-stamped strings with alignment ON and frame periods that do not divide the rate, judged by C09's exact alignment law; corruptions of corpus lines (21 kinds, incl. trailing whitespace, a byte order mark in front of an entry and line terminators inside an entry: chunk deletion/duplication, symbol substitution, unicode insertion, truncation, extra spaces, one time only, two times without label, unparsable times, trailing token, 10k characters, random ASCII, long multi-byte text with 0/1/2 spaces and ASCII prefixes of every length) must give Ok or Err, never a panic; non-trivial = form comparison done / corruption rejected by jlabel's parser",
+    "forms: &[&str], &[String], Vec<String>, &[String; N] (N in 1..8), with blank lines, with 100 ns time stamps and float-spelled times (1e400, inf, NaN, -1) while alignment is off, also blank-line-first + stamped and alternating stamped/plain lines, all compared bit-for-bit with the parsed-label form; time-stamped strings with alignment ON and frame periods that do not divide the rate, judged by C09's exact alignment law; corruptions of corpus lines (21 kinds, incl. trailing whitespace, a byte order mark in front of an entry the ideographic space U+3000 where a separator is expected, and line terminators inside an entry: chunk deletion/duplication, symbol substitution, unicode insertion, truncation, extra spaces, one time only, two times without label, unparsable times, trailing token, 10k characters, random ASCII, long multi-byte text with 0/1/2 spaces and ASCII prefixes of every length) must give Ok or Err, never a panic; non-trivial = form comparison done / corruption rejected by jlabel's parser",
     [st("checked", death_is_violation=True)],
     [st("checked", death_is_violation=True), st("asan", name="asan", args=["--sub", "corruptions", "--scale", "0.1"], env=ASAN_ENV, canary="asan", death_is_violation=True)],
 )
